@@ -246,3 +246,308 @@ Example hp_roundtrip_example :
     (hp_apply Z (fun _ s => map (fun x => x + 1) s) 0 [0x43; 7; 8; 0x80; 0; 0; 5] [1;2;3;4;5;6;7;8;9;10;11;12;13;14;15;16;17]) 3
   = ([0x43; 7; 8; 0x80; 0; 0; 5], -2147483643).
 Proof. vm_compute. reflexivity. Qed.
+
+(* ---------------------------------------------------------------- nonce *)
+Lemma lxor_cancel_l : forall x a b, Z.lxor x a = Z.lxor x b -> a = b.
+Proof.
+  intros x a b H. rewrite <- (Z.lxor_0_l a), <- (Z.lxor_nilpotent x), Z.lxor_assoc, H.
+  now rewrite <- Z.lxor_assoc, Z.lxor_nilpotent, Z.lxor_0_l.
+Qed.
+
+Lemma xor_list_inj_r : forall a m1 m2, length m1 = length m2 -> (length m1 <= length a)%nat ->
+  xor_list a m1 = xor_list a m2 -> m1 = m2.
+Proof.
+  induction a; intros m1 m2 Hl Hle H; destruct m1, m2; cbn in *; try lia; auto.
+  injection H as H1 H2. apply lxor_cancel_l in H1. subst. f_equal. apply IHa; auto; lia.
+Qed.
+
+Lemma byte_of : forall x i, 0 <= i -> Z.land (Z.shiftr x (8 * i)) 255 = (x / 2 ^ (8 * i)) mod 256.
+Proof.
+  intros. change 255 with (Z.ones 8). rewrite Z.land_ones, Z.shiftr_div_pow2 by lia. reflexivity.
+Qed.
+
+(* base-256 digits determine a number below 2^64 *)
+Lemma digits64 : forall x, 0 <= x < 2 ^ 64 ->
+  x = (x / 2 ^ (8 * 0)) mod 256 + 256 * ((x / 2 ^ (8 * 1)) mod 256 + 256 * ((x / 2 ^ (8 * 2)) mod 256
+      + 256 * ((x / 2 ^ (8 * 3)) mod 256 + 256 * ((x / 2 ^ (8 * 4)) mod 256 + 256 * ((x / 2 ^ (8 * 5)) mod 256
+      + 256 * ((x / 2 ^ (8 * 6)) mod 256 + 256 * ((x / 2 ^ (8 * 7)) mod 256))))))).
+Proof.
+  intros x Hx.
+  assert (D : forall a b, 0 <= a -> b = a + 8 -> x / 2 ^ b = x / 2 ^ a / 256).
+  { intros a b Ha ->. rewrite Z.div_div by (try apply Z.pow_pos_nonneg; lia).
+    f_equal. rewrite Z.pow_add_r by lia. reflexivity. }
+  pose proof (D 0 8 ltac:(lia) eq_refl) as D0. pose proof (D 8 16 ltac:(lia) eq_refl) as D1.
+  pose proof (D 16 24 ltac:(lia) eq_refl) as D2. pose proof (D 24 32 ltac:(lia) eq_refl) as D3.
+  pose proof (D 32 40 ltac:(lia) eq_refl) as D4. pose proof (D 40 48 ltac:(lia) eq_refl) as D5.
+  pose proof (D 48 56 ltac:(lia) eq_refl) as D6. pose proof (D 56 64 ltac:(lia) eq_refl) as D7. clear D.
+  change (8 * 0) with 0. change (8 * 1) with 8. change (8 * 2) with 16. change (8 * 3) with 24.
+  change (8 * 4) with 32. change (8 * 5) with 40. change (8 * 6) with 48. change (8 * 7) with 56.
+  assert (E : x / 2 ^ 64 = 0) by (apply Z.div_small; lia).
+  change (2 ^ 0) with 1 in *. rewrite Z.div_1_r in *.
+  set (q1 := x / 2 ^ 8) in *. set (q2 := x / 2 ^ 16) in *. set (q3 := x / 2 ^ 24) in *. set (q4 := x / 2 ^ 32) in *.
+  set (q5 := x / 2 ^ 40) in *. set (q6 := x / 2 ^ 48) in *. set (q7 := x / 2 ^ 56) in *. set (q8 := x / 2 ^ 64) in *.
+  pose proof (Z.div_mod x 256 ltac:(lia)). pose proof (Z.div_mod q1 256 ltac:(lia)). pose proof (Z.div_mod q2 256 ltac:(lia)).
+  pose proof (Z.div_mod q3 256 ltac:(lia)). pose proof (Z.div_mod q4 256 ltac:(lia)). pose proof (Z.div_mod q5 256 ltac:(lia)).
+  pose proof (Z.div_mod q6 256 ltac:(lia)). pose proof (Z.div_mod q7 256 ltac:(lia)).
+  lia.
+Qed.
+
+Lemma pn_bytes8_inj : forall x y, 0 <= x < 2 ^ 64 -> 0 <= y < 2 ^ 64 -> pn_bytes8 x = pn_bytes8 y -> x = y.
+Proof.
+  intros x y Hx Hy H. unfold pn_bytes8 in H. cbn [map] in H.
+  change 18446744073709551616 with (2 ^ 64) in H. rewrite !Z.mod_small in H by assumption.
+  rewrite !byte_of in H by lia.
+  injection H as H7 H6 H5 H4 H3 H2 H1 H0.
+  change (Z.pow_pos 2 56) with (2 ^ (8 * 7)) in H7. change (Z.pow_pos 2 48) with (2 ^ (8 * 6)) in H6.
+  change (Z.pow_pos 2 40) with (2 ^ (8 * 5)) in H5. change (Z.pow_pos 2 32) with (2 ^ (8 * 4)) in H4.
+  change (Z.pow_pos 2 24) with (2 ^ (8 * 3)) in H3. change (Z.pow_pos 2 16) with (2 ^ (8 * 2)) in H2.
+  change (Z.pow_pos 2 8) with (2 ^ (8 * 1)) in H1. change (x / 1) with (x / 2 ^ (8 * 0)) in H0.
+  change (y / 1) with (y / 2 ^ (8 * 0)) in H0.
+  rewrite (digits64 x Hx), (digits64 y Hy). rewrite H0, H1, H2, H3, H4, H5, H6, H7. reflexivity.
+Qed.
+
+(* nonce_injective: for a 12-byte IV two packet numbers below 2^62 (indeed below 2^64) never share a nonce *)
+Lemma nonce_injective_lemma : forall iv pn1 pn2, Zlen iv = 12 -> 0 <= pn1 < 2 ^ 62 -> 0 <= pn2 < 2 ^ 62 ->
+  nonce iv pn1 = nonce iv pn2 -> pn1 = pn2.
+Proof.
+  intros iv pn1 pn2 Hiv H1 H2 H. unfold nonce, xor_at in H.
+  apply app_inv_head in H.
+  apply xor_list_inj_r in H.
+  - apply pn_bytes8_inj in H; auto; change (2 ^ 64) with 18446744073709551616; change (2 ^ 62) with 4611686018427387904 in *; lia.
+  - reflexivity.
+  - unfold pn_bytes8. cbn [map length]. unfold zdrop. rewrite skipn_length. unfold Zlen in Hiv. lia.
+Qed.
+
+Example nonce_example : nonce [0xfa;0x04;0x4b;0x2f;0x42;0xa3;0xfd;0x3b;0x46;0xfb;0x25;0x5c] 2
+                        = [0xfa;0x04;0x4b;0x2f;0x42;0xa3;0xfd;0x3b;0x46;0xfb;0x25;0x5e].
+Proof. reflexivity. Qed.
+
+(* ---------------------------------------------------------------- every header bit is authenticated *)
+Lemma split_packet : forall (l : list Z) off n, 1 <= off -> 0 <= n -> off + n <= Zlen l ->
+  exists b mid x rest, l = b :: mid ++ x ++ rest /\ 1 + Zlen mid = off /\ Zlen x = n.
+Proof.
+  intros l off n Ho Hn Hl. destruct l as [| b tl]; [rewrite Zlen_nil in Hl; lia |].
+  rewrite Zlen_cons in Hl.
+  exists b, (ztake (off - 1) tl), (ztake n (zdrop (off - 1) tl)), (zdrop n (zdrop (off - 1) tl)).
+  rewrite !ztake_zdrop. split; [reflexivity |].
+  split; [rewrite Zlen_ztake by lia; lia |].
+  rewrite Zlen_ztake; [lia |]. rewrite Zlen_zdrop by lia. lia.
+Qed.
+
+Section AUTH.
+  Variable K : Type.
+  Variable maskf : K -> list Z -> list Z.
+
+  (* what the AEAD sees of a packet: (associated data, ciphertext) *)
+  Definition aead_view (hp : K) (pkt : list Z) (off : Z) : list Z * list Z :=
+    let h := fst (hp_remove_raw K maskf hp pkt off) in (h, zdrop (Zlen h) pkt).
+
+  (* Re-applying header protection to the AEAD's view gives back the packet: the view determines
+     every bit of the protected packet. *)
+  Lemma reprotect : forall hp pkt off, 1 <= off -> off + 4 <= Zlen pkt ->
+    hp_apply K maskf hp (fst (aead_view hp pkt off)) (snd (aead_view hp pkt off)) = pkt.
+  Proof.
+    intros hp pkt off Ho Hl. unfold aead_view. cbn [fst snd].
+    set (m := maskf hp (ztake 16 (zdrop (off + 4) pkt))).
+    set (b0' := byte_at pkt 0).
+    set (b0 := Z.lxor b0' (Z.land (byte_at m 0) (first_mask b0'))).
+    pose proof (land3_range b0) as Hr.
+    destruct (split_packet pkt off (Z.land b0 3 + 1) Ho ltac:(lia) ltac:(lia)) as (b & mid & pn' & rest & Hp & Hoff & Hpn).
+    assert (Hb : b = b0') by (unfold b0'; rewrite Hp; reflexivity). subst b.
+    assert (Hm : the_mask K maskf hp (Zlen pn') rest = m).
+    { unfold the_mask, m. f_equal. f_equal. rewrite Hp.
+      change (b0' :: mid ++ pn' ++ rest) with ((b0' :: mid) ++ pn' ++ rest).
+      rewrite app_assoc. symmetry. apply zdrop_app_more; [rewrite Zlen_app, Zlen_cons |]; lia. }
+    pose proof (hp_remove_shape K maskf hp b0' mid pn' rest) as Hs. cbv zeta in Hs.
+    rewrite Hm in Hs. fold b0 in Hs. specialize (Hs Hpn).
+    rewrite <- Hoff. rewrite Hp at 1 2. rewrite Hs. cbn [fst].
+    set (pn := xor_list pn' (pn_mask m (Zlen pn'))).
+    assert (Hlp : Zlen pn = Zlen pn') by apply Zlen_xor_list.
+    assert (Hz : zdrop (Zlen (b0 :: mid ++ pn)) pkt = rest).
+    { rewrite Hp. change (b0' :: mid ++ pn' ++ rest) with ((b0' :: mid) ++ pn' ++ rest).
+      rewrite app_assoc. apply zdrop_app_exact. rewrite !Zlen_cons, !Zlen_app, Zlen_cons. lia. }
+    rewrite Hz. rewrite hp_apply_shape by lia.
+    rewrite Hlp, Hm. unfold pn. rewrite xor_list_invol.
+    rewrite Hp. f_equal.
+    unfold b0. rewrite first_mask_kept. now rewrite Z.lxor_assoc, Z.lxor_nilpotent, Z.lxor_0_r.
+  Qed.
+
+  (* header_fully_authenticated: for a fixed key the map  protected packet -> (associated data,
+     ciphertext)  is injective, so ANY changed bit of the protected header (first byte, version,
+     connection ids, length, packet number) or of the ciphertext changes the AEAD's inputs. *)
+  Lemma header_fully_authenticated_lemma : forall hp pkt1 pkt2 off, 1 <= off ->
+    off + 4 <= Zlen pkt1 -> off + 4 <= Zlen pkt2 ->
+    aead_view hp pkt1 off = aead_view hp pkt2 off -> pkt1 = pkt2.
+  Proof.
+    intros hp pkt1 pkt2 off Ho H1 H2 Hv.
+    rewrite <- (reprotect hp pkt1 off Ho H1), <- (reprotect hp pkt2 off Ho H2), Hv. reflexivity.
+  Qed.
+End AUTH.
+
+(* ---------------------------------------------------------------- ideal AEAD *)
+Section IDEAL.
+  Variable K : Type.
+  Variable maskf : K -> list Z -> list Z.
+  Variable seal : K -> list Z -> list Z -> list Z -> list Z.
+  Variable open_ : K -> list Z -> list Z -> list Z -> option (list Z).
+  Variable next_ctx : cctx K -> cctx K.
+  (* H-AEAD: exactly the honestly sealed ciphertexts open (idealisation: forgery probability 0) *)
+  Hypothesis open_sound : forall k n a c p, open_ k n a c = Some p -> c = seal k n a p.
+  Hypothesis open_seal : forall k n a p, open_ k n a (seal k n a p) = Some p.
+
+  Definition sealed_by (cx cr : cctx K) (hdr p : list Z) (pn : Z) : list Z :=
+    hp_apply K maskf (c_hp K cx) hdr (seal (c_key K cr) (nonce (c_iv K cr) pn) hdr p).
+
+  (* Whatever decrypt_packet accepts IS an honestly protected packet: header protection with the
+     receiver's hp key applied to the AEAD sealing -- under the current or the next key phase -- of
+     exactly the header, payload and packet number that decrypt_packet returns. *)
+  Lemma accepted_is_honest : forall cx pkt off e hdr p pn upd, 1 <= off -> off + 4 <= Zlen pkt ->
+    decrypt_packet K maskf open_ next_ctx cx pkt off e = Some (hdr, p, pn, upd) ->
+    exists cr, (cr = cx \/ cr = next_ctx cx) /\ pkt = sealed_by cx cr hdr p pn.
+  Proof.
+    intros cx pkt off e hdr p pn upd Ho Hl H. unfold decrypt_packet, hp_remove in H.
+    destruct (hp_remove_raw K maskf (c_hp K cx) pkt off) as [h t] eqn:Er.
+    destruct (select_ctx K next_ctx cx (byte_at h 0)) as [cr u] eqn:Es.
+    unfold aead_decrypt in H.
+    destruct ((Zlen (zdrop (Zlen h) pkt) <? AEAD_TAG_LENGTH) || (Zlen (zdrop (Zlen h) pkt) >? PACKET_LENGTH_MAX)); [discriminate |].
+    destruct (open_ (c_key K cr) _ h (zdrop (Zlen h) pkt)) as [q |] eqn:Eo; [| discriminate].
+    injection H as <- <- <- <-.
+    exists cr. split.
+    - unfold select_ctx in Es. destruct (negb _); [injection Es as <- _; auto |].
+      destruct (_ =? _); injection Es as <- _; auto.
+    - apply open_sound in Eo. unfold sealed_by. rewrite <- Eo.
+      pose proof (reprotect K maskf (c_hp K cx) pkt off Ho Hl) as Hre. unfold aead_view in Hre.
+      rewrite Er in Hre. cbn [fst snd] in Hre. now rewrite Hre.
+  Qed.
+
+  (* altered_rejected: a packet that differs from every honest protection (under the receiver's
+     current and next keys) of any header / payload / packet number is rejected. *)
+  Lemma altered_rejected_lemma : forall cx pkt' off e, 1 <= off -> off + 4 <= Zlen pkt' ->
+    (forall cr hdr p pn, cr = cx \/ cr = next_ctx cx -> pkt' <> sealed_by cx cr hdr p pn) ->
+    decrypt_packet K maskf open_ next_ctx cx pkt' off e = None.
+  Proof.
+    intros cx pkt' off e Ho Hl Hne.
+    destruct (decrypt_packet K maskf open_ next_ctx cx pkt' off e) as [[[[h p] pn] u] |] eqn:E; [| reflexivity].
+    destruct (accepted_is_honest _ _ _ _ _ _ _ _ Ho Hl E) as (cr & Hcr & Hp). exfalso. exact (Hne cr h p pn Hcr Hp).
+  Qed.
+
+  (* round trip of a whole packet.  The premise Hpn is "the packet number is recovered from the
+     pn field as it leaves HeaderProtection_remove"; see pn_field_recovery_refuted for where it fails. *)
+  Lemma protect_unprotect_lemma : forall cx hdr p pn e,
+    let pnl := Z.land (byte_at hdr 0) 3 + 1 in
+    pnl < Zlen hdr -> 4 <= pnl + Zlen p -> Zlen hdr + Zlen p + 16 <= 1500 ->
+    (forall k n a, Zlen (seal k n a p) = Zlen p + 16) ->
+    (Z.land (byte_at hdr 0) 128 <> 0 \/ Z.shiftr (Z.land (byte_at hdr 0) 4) 2 = c_phase K cx) ->
+    decode_packet_number (as_c_int (be_int (zdrop (Zlen hdr - pnl) hdr))) (pnl * 8) e = pn ->
+    forall pkt, encrypt_packet K maskf seal cx hdr p pn = Some pkt ->
+    decrypt_packet K maskf open_ next_ctx cx pkt (Zlen hdr - pnl) e = Some (hdr, p, pn, false).
+  Proof.
+    intros cx hdr p pn e pnl Hh Hmin Hp Hlen Hph Hpn pkt He.
+    unfold encrypt_packet, aead_encrypt in He.
+    destruct (Zlen p >? PACKET_LENGTH_MAX) eqn:Eg; [discriminate |]. injection He as <-.
+    set (ct := seal (c_key K cx) (nonce (c_iv K cx) pn) hdr p).
+    assert (Hct : Zlen ct = Zlen p + 16) by apply Hlen.
+    pose proof (Zlen_nonneg _ p). pose proof (Zlen_nonneg _ hdr).
+    unfold decrypt_packet. fold pnl.
+    pose proof (land3_range (byte_at hdr 0)).
+    rewrite hp_roundtrip_lemma; try (fold pnl; lia).
+    fold pnl. rewrite Hpn.
+    assert (Hsel : select_ctx K next_ctx cx (byte_at hdr 0) = (cx, false)).
+    { unfold select_ctx. destruct Hph as [Hl | Hs].
+      - destruct (Z.land (byte_at hdr 0) 128 =? 0) eqn:E; [apply Z.eqb_eq in E; contradiction | reflexivity].
+      - destruct (negb _); [reflexivity |]. rewrite Hs, Z.eqb_refl. reflexivity. }
+    rewrite Hsel.
+    (* the ciphertext part of the protected packet *)
+    destruct (header_parts hdr Hh) as (b0 & mid & pnf & Hhd & Hpf & Hoff & _).
+    assert (Hz : zdrop (Zlen hdr) (hp_apply K maskf (c_hp K cx) hdr ct) = ct).
+    { rewrite Hhd at 2. rewrite hp_apply_shape by assumption.
+      match goal with |- zdrop _ (?b :: mid ++ ?x ++ ct) = ct => change (b :: mid ++ x ++ ct) with ((b :: mid) ++ x ++ ct); rewrite app_assoc end.
+      apply zdrop_app_exact. rewrite Hhd, !Zlen_cons, !Zlen_app, Zlen_cons, Zlen_xor_list. lia. }
+    rewrite Hz. unfold aead_decrypt. unfold AEAD_TAG_LENGTH, PACKET_LENGTH_MAX in *.
+    assert (Hf : (Zlen ct <? 16) || (Zlen ct >? 1500) = false).
+    { apply orb_false_iff. split; [apply Z.ltb_ge; lia | rewrite Z.gtb_ltb; apply Z.ltb_ge; lia]. }
+    rewrite Hf.
+    unfold ct. now rewrite open_seal.
+  Qed.
+End IDEAL.
+
+(* ---------------------------------------------------------------- Retry *)
+Lemma app_inv_len : forall (a b x y : list Z), length a = length b -> a ++ x = b ++ y -> a = b /\ x = y.
+Proof.
+  induction a; destruct b; cbn; intros x y Hl H; try discriminate; auto.
+  injection H as -> H. destruct (IHa b x y ltac:(lia) H) as [-> ->]. auto.
+Qed.
+
+Lemma retry_pseudo_inj : forall o1 p1 o2 p2, retry_pseudo o1 p1 = retry_pseudo o2 p2 -> o1 = o2 /\ p1 = p2.
+Proof.
+  intros o1 p1 o2 p2 H. unfold retry_pseudo in H. injection H as Hl H.
+  apply app_inv_len in H; [exact H | unfold Zlen in Hl; lia].
+Qed.
+
+(* retry_tag_binds.  The Retry tag is AEAD(K_retry, N_retry, ad = pseudo packet, pt = "") with PUBLIC
+   constants, so it cannot stop an attacker who recomputes it; what it guarantees -- and what the
+   property needs -- is that a Retry altered only in the packet-without-tag part or only in the tag
+   (in particular in any single bit) is not accepted.  Ideal-MAC hypothesis: tags of different
+   associated data differ. *)
+Section RETRY.
+  Variable tagf : list Z -> list Z.                  (* pseudo packet -> 16-byte tag *)
+  Hypothesis tagf_inj : forall a b, tagf a = tagf b -> a = b.
+
+  (* _receive_retry_packet's integrity condition *)
+  Definition retry_accepts (odcid body tag : list Z) : Prop := tag = tagf (retry_pseudo odcid body).
+
+  Lemma retry_tag_binds_lemma : forall odcid body tag body' tag',
+    retry_accepts odcid body tag -> retry_accepts odcid body' tag' ->
+    (body' = body \/ tag' = tag) -> body' = body /\ tag' = tag.
+  Proof.
+    unfold retry_accepts. intros odcid body tag body' tag' -> -> [-> | H]; [auto |].
+    apply tagf_inj, retry_pseudo_inj in H. destruct H as [_ ->]. auto.
+  Qed.
+
+  (* the tag also binds the original destination connection id *)
+  Lemma retry_tag_binds_odcid : forall o1 o2 body tag,
+    retry_accepts o1 body tag -> retry_accepts o2 body tag -> o1 = o2.
+  Proof.
+    unfold retry_accepts. intros o1 o2 body tag -> H. apply tagf_inj, retry_pseudo_inj in H. now destruct H.
+  Qed.
+End RETRY.
+
+(* ---------------------------------------------------------------- the pn field as decrypt_packet sees it *)
+Lemma as_c_int_small : forall v, v < 2147483648 -> as_c_int v = v.
+Proof. intros v H. unfold as_c_int. destruct (v >=? 2147483648) eqn:E; [apply Z.geb_le in E; lia | reflexivity]. Qed.
+
+(* Recovery of the full packet number from the truncated value handed over by
+   HeaderProtection_remove: holds for 1-3 byte encodings, and for 4-byte encodings whose top bit is clear. *)
+Lemma pn_field_recovery_lemma : forall n e pn, valid_bits n -> 0 <= e < 2 ^ 62 -> 0 <= pn < 2 ^ 62 ->
+  e - 2 ^ (n - 1) < pn <= e + 2 ^ (n - 1) -> (n < 32 \/ pn mod 2 ^ 32 < 2 ^ 31) ->
+  decode_packet_number (as_c_int (pn mod 2 ^ n)) n e = pn.
+Proof.
+  intros n e pn Hn He Hp Hw Hs. rewrite as_c_int_small; [now apply pn_roundtrip_lemma |].
+  destruct Hn as [-> | [-> | [-> | ->]]].
+  - pose proof (Z.mod_pos_bound pn (2 ^ 8) eq_refl). change (2 ^ 8) with 256 in *. lia.
+  - pose proof (Z.mod_pos_bound pn (2 ^ 16) eq_refl). change (2 ^ 16) with 65536 in *. lia.
+  - pose proof (Z.mod_pos_bound pn (2 ^ 24) eq_refl). change (2 ^ 24) with 16777216 in *. lia.
+  - destruct Hs as [Hs | Hs]; [lia | exact Hs].
+Qed.
+
+(* ... and FAILS for 4-byte encodings with the top bit set once expected >= 2^32: the signed
+   conversion ("i" format of a uint32_t) makes decode_packet_number ignore the high bits of
+   `expected`.  Witness: expected = pn = 0x1_8000_0005, inside the window (distance 0). *)
+Lemma pn_field_recovery_refuted : exists e pn, 0 <= e < 2 ^ 62 /\ 0 <= pn < 2 ^ 62 /\
+  e - 2 ^ 31 < pn <= e + 2 ^ 31 /\ decode_packet_number (as_c_int (pn mod 2 ^ 32)) 32 e <> pn /\
+  decode_packet_number (pn mod 2 ^ 32) 32 e = pn.
+Proof.
+  exists 6442450949, 6442450949. repeat split; try (vm_compute; congruence); vm_compute; discriminate.
+Qed.
+
+(* the same defect makes a packet number far OUTSIDE the window decode to itself instead of to the
+   closest candidate (expected 2^33, field 0x80000001: closest candidate is 2^33 + 2^31 + 1) *)
+Lemma pn_field_not_closest_refuted : exists e t, 0 <= e < 2 ^ 62 /\ 0 <= t < 2 ^ 32 /\
+  decode_packet_number (as_c_int t) 32 e = t /\ decode_packet_number t 32 e = e - 2 ^ 31 + 1 /\ t <> e - 2 ^ 31 + 1.
+Proof. exists 8589934592, 2147483649. repeat split; vm_compute; congruence. Qed.
+
+Example protect_unprotect_premises :
+  let hdr := [0x43; 1; 2; 3; 4; 5; 6; 7; 8; 0; 0; 0; 77] in
+  Z.land (byte_at hdr 0) 3 + 1 < Zlen hdr /\
+  decode_packet_number (as_c_int (be_int (zdrop (Zlen hdr - 4) hdr))) (4 * 8) 70 = 77.
+Proof. vm_compute. split; reflexivity. Qed.
